@@ -2,6 +2,8 @@ package main
 
 import (
 	"fmt"
+	"go/token"
+	"go/types"
 	"sort"
 	"strings"
 
@@ -23,28 +25,91 @@ var c14Pairs = [][2]string{
 	{"ExecuteSelectedRulesWithControlAndStopTagAsGivenSortedName", "ExecuteSelectedRulesWithControlAsGivenSortedName"},
 }
 
+// condAndCallBags summarises a function for the sibling comparison. Branch
+// conditions are named by what they decide, not by how they are written: a
+// length test by its operand and the length at which it splits (`len(r) > 1`,
+// `len(r) < 2` and `len(r)-1 >= 1` are the same test), a nil test by its
+// subject, any other condition by its access path with negation removed.
+// Calls are those that act on the engine: callees of this module, the sort
+// package, goroutine starts and defers (error-message construction, logging
+// and builtins are not compared; the rules of C09/C13 check each function's
+// error surface on its own).
 func (c *Ctx) condAndCallBags(fn *ssa.Function) (conds, calls map[string]int) {
 	x := c.Index(fn)
 	conds, calls = map[string]int{}, map[string]int{}
 	eachInstrDeep(fn, func(f *ssa.Function, in ssa.Instruction) {
 		switch t := in.(type) {
 		case *ssa.If:
-			conds[x.Describe(t.Cond)]++
+			// the header test of a loop is loop mechanics (range and index loops test
+			// different things for the same iteration); the loops themselves are
+			// checked by the loop-discipline rules of each function
+			isHead := false
+			for _, l := range c.Index(f).Loops(f) {
+				if l.Head == t.Block() {
+					isHead = true
+				}
+			}
+			if isHead {
+				conds["loop header"]++
+				return
+			}
+			cond := t.Cond
+			for {
+				u, isU := cond.(*ssa.UnOp)
+				if !isU || u.Op != token.NOT {
+					break
+				}
+				cond = u.X
+			}
+			// local variables are named by their type, so that renaming one does not matter
+			dT := func(v ssa.Value) string {
+				if al := x.directCell(x.lastLoad(v)); al != nil && al.Parent() != nil {
+					if _, isCall := x.Origin(v).(*ssa.Call); !isCall {
+						if _, isPar := x.Origin(v).(*ssa.Parameter); !isPar {
+							return "<" + types.TypeString(al.Type().(*types.Pointer).Elem(), func(p *types.Package) string { return p.Name() }) + ">"
+						}
+					}
+				}
+				return x.Describe(v)
+			}
+			var sp *ssa.Parameter
+			for _, p := range rootOf(f).Params {
+				if isNamedPtr(p.Type(), pEngine, "Stag") {
+					sp = p
+				}
+			}
+			if sp != nil && x.tagRead(cond, sp) != nil {
+				conds[sp.Name()+".StopTag"]++
+			} else if arg, tlo, _, flo, _, ok := x.lenTest(cond); ok && (tlo == 0) != (flo == 0) {
+				split := tlo
+				if flo > split {
+					split = flo
+				}
+				conds[fmt.Sprintf("len(%s) >= %d", dT(arg), split)]++
+			} else if subj, _, ok := nilCheck(cond); ok {
+				conds["nil? "+dT(subj)]++
+			} else if ex, isEx := x.Origin(cond).(*ssa.Extract); isEx {
+				if lk, isLk := ex.Tuple.(*ssa.Lookup); isLk && lk.CommaOk && ex.Index == 1 {
+					conds["found in "+dT(lk.X)]++
+				} else {
+					conds[strings.TrimPrefix(dT(cond), "!")]++
+				}
+			} else {
+				conds[strings.TrimPrefix(dT(cond), "!")]++
+			}
 		case ssa.CallInstruction:
 			cc := t.Common()
-			name := "?"
+			name := ""
 			if cal := cc.StaticCallee(); cal != nil {
-				name = fnName(cal)
-				if cal.Pkg != nil {
-					name = cal.Pkg.Pkg.Name() + "." + name
-				}
 				if cal.Parent() != nil {
 					name = "literal"
+				} else if cal.Pkg != nil && (strings.HasPrefix(cal.Pkg.Pkg.Path(), modPath) || cal.Pkg.Pkg.Path() == "sort") {
+					name = cal.Pkg.Pkg.Name() + "." + fnName(cal)
 				}
-			} else if b, ok := cc.Value.(*ssa.Builtin); ok {
-				name = "builtin." + b.Name()
 			} else if _, ok := cc.Value.(*ssa.MakeClosure); ok {
 				name = "literal"
+			} else if _, ok := cc.Value.(*ssa.Builtin); !ok {
+				name = "dynamic"
 			}
 			kind := "call"
 			if _, ok := in.(*ssa.Go); ok {
@@ -52,6 +117,9 @@ func (c *Ctx) condAndCallBags(fn *ssa.Function) (conds, calls map[string]int) {
 			}
 			if _, ok := in.(*ssa.Defer); ok {
 				kind = "defer"
+			}
+			if name == "" && kind == "call" {
+				return
 			}
 			calls[kind+" "+name]++
 		}
